@@ -3,7 +3,9 @@
 Space: each of the 25 polar symbols alone (3 magnitudes x 4 azimuth offsets), every (C_nm, phi_nm) pair, all pairs of
 distinct aberration terms, 3 dense sets, 3 energies, explicit samples alpha in {0, 1, 5, 10, 25 mrad} x 12 azimuths,
 through Aberrations and CTF; every alias through every way of setting/reading a coefficient; defocus = -C10;
-rotation of all azimuthal coefficients by delta vs evaluation at phi - delta.
+rotation of all azimuthal coefficients by delta vs evaluation at phi - delta; HISTORIES: every sequence (depth 2 quick / 3
+thorough) of 16 setter events (attribute / alias / set_aberrations / Scherzer / energy change / copy) on one Aberrations, CTF or
+Probe object, replayed in lock-step on a dict model.
 Oracle: mc/ref/chi.py (generic sum over symbol names in float64), compared as complex numbers.
 """
 import itertools
@@ -11,11 +13,12 @@ import itertools
 import numpy as np
 
 META = dict(
-    engines=["product"],
+    engines=["product", "bfs"],
     technique="exhaustive enumeration of aberration symbols, symbol pairs, aliases and access paths against a generic float64 reference polynomial",
     text="Every polar symbol alone, every pair of distinct aberration terms, dense sets, every alias via constructor kwarg / dict / attribute / "
          "set_aberrations / defocus, and the rotation identity are evaluated with Aberrations and CTF on a fixed 5 x 12 (alpha, phi) sample set "
-         "for 1 (quick) or 3 energies and compared with exp(-2 pi i chi / lambda) from a reference that is generated from the symbol names.",
+         "for 1 (quick) or 3 energies and compared with exp(-2 pi i chi / lambda) from a reference that is generated from the symbol names. A breadth-first search over setter histories on one object "
+         "(16 events, depth 2 / 3) replays a dict model in lock-step and requires kernel, coefficient dict and alias reads to agree after every step.",
     note="Bound: coefficient magnitudes chosen so that |2 pi chi / lambda| <= ~60 rad at 25 mrad (float32 phase accuracy); tolerance 5e-5 on a "
          "unit-modulus kernel. Larger phases lose float32 accuracy and are outside the bound.",
 )
@@ -76,9 +79,119 @@ def check(ctx):
             for cls in ("Aberrations", "CTF"):
                 cases.append({"kind": "alias", "alias": alias, "symbol": sym, "how": how, "cls": cls})
     cases.append({"kind": "scherzer"})
+    # histories of edits on ONE object: every sequence of setter calls up to the depth; after every step the kernel must be the
+    # reference polynomial of the coefficient set a boring dict model predicts (lock-step replay), through every access path
+    for cls in ("Aberrations", "CTF", "Probe"):
+        for first in range(len(HEVENTS)):
+            cases.append({"kind": "history", "cls": cls, "first": first, "depth": 2 if ctx.quick else 3})
     ctx.workers = 8
     ctx.run(cases, "run_case", rule="kernel cases: (class, energy, coefficient set) evaluated on 5x12 (alpha, phi) samples; alias cases: "
             "(alias, way of setting, class); rotation cases; non-trivial = at least one non-zero coefficient")
+
+
+# setter events: (how, name, value).  how: attr = setattr(obj, name, value); set = obj.set_aberrations({name: value}); energy / copy
+HEVENTS = [("attr", "C10", 150.0), ("attr", "defocus", 80.0), ("attr", "C30", 1.5e5), ("attr", "Cs", -9e4), ("attr", "C12", 90.0), ("attr", "astigmatism", -40.0),
+           ("attr", "phi12", 0.7), ("attr", "astigmatism_angle", -0.4), ("attr", "C21", 900.0), ("attr", "coma_angle", 1.1), ("attr", "C10", 0.0),
+           ("set", "defocus", -60.0), ("set", "C30+phi12", None), ("set", "scherzer", None), ("energy", None, 60e3), ("copy", None, None)]
+
+
+def _h_target(obj):
+    """the object that carries the aberrations (a Probe delegates to its .aberrations)"""
+    return getattr(obj, "aberrations", obj) if type(obj).__name__ == "Probe" else obj
+
+
+def _h_apply(state, ev, model):
+    """one REAL setter call on the live object; the same event on the dict model (returns the new model)"""
+    import copy as _copy
+
+    import abtem.transfer as T
+    from abtem.transfer import polar_aliases
+
+    how, name, val = ev
+    obj = state["obj"]
+    tgt = _h_target(obj)
+    model = dict(model)
+    coef = dict(model["coef"])
+    if how == "attr":
+        setattr(tgt, name, val)
+        if name == "defocus":
+            coef["C10"] = -val
+        else:
+            coef[polar_aliases.get(name, name)] = val
+    elif how == "set" and name == "defocus":
+        tgt.set_aberrations({"defocus": val})
+        coef["C10"] = -val
+    elif how == "set" and name == "C30+phi12":
+        tgt.set_aberrations({"C30": 2.2e5, "astigmatism_angle": 0.25})
+        coef["C30"], coef["phi12"] = 2.2e5, 0.25
+    elif how == "set":  # Scherzer defocus from the CURRENT C30 and energy
+        tgt.set_aberrations({"defocus": "scherzer"})
+        coef["C10"] = -T.scherzer_defocus(coef.get("C30", 0.0), model["energy"])
+    elif how == "energy":
+        obj.energy = val
+        model["energy"] = val
+    else:
+        state["obj"] = obj.copy() if hasattr(obj, "copy") else _copy.deepcopy(obj)
+    model["coef"] = coef
+    return model
+
+
+def run_history(case):
+    import abtem
+    import abtem.transfer as T
+    from mc.bfs import bfs
+    from mc.ref import chi as R
+
+    a, p = grids()
+    a64, p64 = a.astype(np.float64), p.astype(np.float64)
+    worst = [0.0]
+    model0 = {"coef": {}, "energy": 100e3}
+
+    def fresh():
+        if case["cls"] == "Probe":
+            obj = abtem.Probe(semiangle_cutoff=30.0, energy=100e3, gpts=(16, 16), extent=(8, 8))
+        else:
+            obj = getattr(T, case["cls"])(energy=100e3)
+        return {"obj": obj, "model": dict(model0), "hist": []}
+
+    def apply(s, ev):
+        s["model"] = _h_apply(s, ev, s["model"])
+        s["hist"].append(ev)
+        return ev[0]
+
+    def enabled(s):
+        return HEVENTS if s["hist"] else [HEVENTS[case["first"]]]
+
+    def canon(s):  # merged by model state: (coefficients, energy) is everything the future can depend on IF the object has no hidden state;
+        # that claim is exactly what is tested, so two histories are merged only when their observed kernels are identical as well
+        k = np.asarray(_h_target(s["obj"])._evaluate_from_angular_grid(a, p))
+        return (tuple(sorted((k_, float(v)) for k_, v in s["model"]["coef"].items() if v != 0.0)), s["model"]["energy"], k.tobytes())
+
+    def check(s, hist, ev, info, pre):
+        out = []
+        tgt = _h_target(s["obj"])
+        coef, en = s["model"]["coef"], s["model"]["energy"]
+        k = np.asarray(tgt._evaluate_from_angular_grid(a, p))
+        ref = R.kernel(coef, a64, p64, R.wavelength(en))
+        e = float(np.abs(k - ref).max())
+        worst[0] = max(worst[0], e / TOL)
+        if not e <= TOL:
+            out.append(("history/kernel", "%s after %r: kernel differs from the reference polynomial of %r at %g eV by %.3g" % (case["cls"], list(hist) + [ev], coef, en, e)))
+        got = {k_: v for k_, v in tgt.aberration_coefficients.items() if v != 0.0}
+        want = {k_: v for k_, v in coef.items() if v != 0.0}
+        if got != want:
+            out.append(("history/coefficients", "%s after %r: aberration_coefficients %r, the dict model has %r" % (case["cls"], list(hist) + [ev], got, want)))
+        if tgt.defocus != -tgt.C10 or tgt.Cs != tgt.C30 or tgt.astigmatism != tgt.C12:
+            out.append(("history/alias-read", "alias reads disagree with symbol reads after %r" % (list(hist) + [ev],)))
+        return out
+
+    res = bfs(fresh, apply, enabled, canon, check, case["depth"])
+    viol, seen = [], set()
+    for key, msg, hist in res["violations"]:
+        if key not in seen:
+            seen.add(key)
+            viol.append({"key": key, "msg": msg})
+    return {"viol": viol, "obs": "%d states" % len(res["states"]), "st": len(res["states"]), "tr": res["transitions"], "ref": res["transitions"], "err": worst[0]}
 
 
 def grids():
@@ -106,6 +219,8 @@ def run_case(case):
     def bad(key, msg):
         viol.append({"key": key, "msg": msg})
 
+    if case["kind"] == "history":
+        return run_history(case)
     if case["kind"] == "kernel":
         coef = case["coef"]
         k, a, p = evaluate(case["cls"], case["energy"], coef)
